@@ -855,7 +855,7 @@ fn run(gen: &str) -> Value {
         "c06" => { all_suites!(gen_c06, &mut acc); }
         "c07" => { all_suites!(gen_c07, &mut acc); }
         "c08" => { all_suites!(gen_c08, &mut acc); }
-        "c10" => { all_suites!(gen_c10, &mut acc); }
+        "c10" => { all_suites!(gen_c10, &mut acc); key_length_probes(&mut acc); }
         "c12" => { all_suites!(gen_c12, &mut acc); }
         "c13" => { all_suites!(gen_c13, &mut acc); }
         "c11" | "c19" => { group_probes(&mut acc); }
@@ -920,6 +920,38 @@ fn group_probes(acc: &mut Acc) {
     nist!(p256::NistP256, 32, "*_P256");
     nist!(p384::NistP384, 48, "*_P384");
     nist!(p521::NistP521, 66, "*_P521");
+}
+
+/// C10 for the key-pair API: every slice length 0 ..= n + 2 given to the group's scalar / point decoders and to KeyPair::from_private_key_slice
+fn key_length_probes(acc: &mut Acc) {
+    use opaque_ke::key_exchange::group::KeGroup;
+    macro_rules! sweep { ($c:ty, $n:expr, $name:expr) => {{
+        let mut rng = StdRng::seed_from_u64(19);
+        let sk = <$c as KeGroup>::random_sk(&mut rng);
+        let pk = <$c as KeGroup>::serialize_pk(<$c as KeGroup>::public_key(sk)).to_vec();
+        // every slice length 0 ..= n + 2: a scalar / point decoder accepts exactly one length, and what it accepts re-encodes to itself
+        for len in 0..=($n + 2usize) {
+            let mut v = vec![0u8; len]; if len > 0 { v[len - 1] = 1; }
+            acc.tried += 1;
+            if let Ok(s) = <$c as KeGroup>::deserialize_sk(&v) {
+                let re = <$c as KeGroup>::serialize_sk(s).to_vec();
+                if re != v { acc.hit($name, "KeGroup::deserialize_sk accepts a byte string that does not re-encode to itself (wrong length)", json!({"input_len": len, "input": hx(&v), "reencoded": hx(&re)})); }
+                if let Ok(kp) = opaque_ke::keypair::KeyPair::<$c>::from_private_key_slice(&v) {
+                    use opaque_ke::keypair::SecretKey as _;
+                    let re2 = kp.private().serialize().to_vec();
+                    if re2 != v { acc.hit($name, "KeyPair::from_private_key_slice accepts a private key encoding that does not re-encode to itself", json!({"input_len": len, "input": hx(&v), "reencoded": hx(&re2)})); }
+                }
+            }
+            let t: Vec<u8> = pk.iter().cloned().chain([0u8, 0u8]).take(len).collect();
+            if t.len() == len { acc.tried += 1;
+                if let Ok(p) = <$c as KeGroup>::deserialize_pk(&t) { let re = <$c as KeGroup>::serialize_pk(p).to_vec(); if re != t { acc.hit($name, "deserialize_pk accepts a truncated / extended encoding", json!({"input_len": len})); } } }
+        }
+    }}; }
+    sweep!(p256::NistP256, 32, "*_P256");
+    sweep!(p384::NistP384, 48, "*_P384");
+    sweep!(p521::NistP521, 66, "*_P521");
+    sweep!(opaque_ke::Ristretto255, 32, "*_R");
+    sweep!(opaque_ke::Curve25519, 32, "*_X");
 }
 
 // ------------------------------------------------------------------------------------------------ external server key (C13 / C18)
